@@ -1,5 +1,12 @@
 package main
 
+import (
+	"fmt"
+	"sort"
+)
+
+func sortStrings(s []string) { sort.Strings(s) }
+
 // MonReach measures how far apart the nodes' views were when decisions were
 // taken. It never produces a verdict; its counters go into the evidence.
 type MonReach struct {
@@ -103,3 +110,104 @@ func (m *MonReach) AfterStep(nw *Network) {
 	}
 }
 func (m *MonReach) Finish(nw *Network) {}
+
+// MonFame compares the sets of famous witnesses that full-history nodes hold
+// for the rounds they have processed. It is a diagnostic: C01 speaks about
+// blocks, and two different famous sets give the same block when the medians
+// of their timestamps happen to coincide; counting the differences tells how
+// often agreement depended on that coincidence.
+type MonFame struct {
+	canon map[int]string
+	from  map[int]int
+	done  map[[2]int]bool
+	Strict bool
+}
+
+func NewMonFame() *MonFame {
+	return &MonFame{canon: map[int]string{}, from: map[int]int{}, done: map[[2]int]bool{}}
+}
+func (m *MonFame) Name() string { return "fame" }
+func (m *MonFame) AfterStep(nw *Network) {
+	for _, n := range nw.Nodes {
+		if !fullHistory(n) || !n.Up || n.StoreClosed {
+			continue
+		}
+		lcr := n.Node.GetLastConsensusRoundIndex()
+		for r := lcr; r >= 0 && r > lcr-3; r-- {
+			k := [2]int{n.Idx*1000 + n.Incarnation, r}
+			if m.done[k] {
+				continue
+			}
+			ri, err := n.Core.Hg().Store.GetRound(r)
+			if err != nil {
+				continue
+			}
+			m.done[k] = true
+			fw := ri.FamousWitnesses()
+			sortStrings(fw)
+			key := fmt.Sprint(fw)
+			if c, ok := m.canon[r]; ok {
+				nw.Res.count("fame_set_comparisons", 1)
+				if c != key {
+					nw.Res.count("fame_sets_differ_between_full_history_nodes", 1)
+					if m.Strict {
+						nw.violate("C01", "C01:famous-witness-sets-differ", fmt.Sprintf("nodes %d and %d processed round %d with different sets of famous witnesses", m.from[r], n.Idx, r),
+							map[string]interface{}{"round": r, "a": c, "b": key})
+						return
+					}
+				}
+			} else {
+				m.canon[r] = key
+				m.from[r] = n.Idx
+			}
+		}
+	}
+}
+func (m *MonFame) Finish(nw *Network) {}
+
+// MonLateSets is a diagnostic: it reports validator-set changes that became
+// known to a node (block committed) when the node had already assigned events
+// to the round at which the change takes effect (round-received + 6).
+type MonLateSets struct {
+	processed map[*App]int
+}
+
+func NewMonLateSets() *MonLateSets { return &MonLateSets{processed: map[*App]int{}} }
+func (m *MonLateSets) Name() string { return "latesets" }
+func (m *MonLateSets) AfterStep(nw *Network) {
+	for _, n := range nw.Nodes {
+		if n.Node == nil || n.Puppet || n.App == nil || n.StoreClosed {
+			continue
+		}
+		app := n.App
+		for i := m.processed[app]; i < len(app.Delivered); i++ {
+			d := app.Delivered[i]
+			if d.LastRoundAtCommit >= 0 {
+				lag := d.LastRoundAtCommit - d.Body.RoundReceived
+				if lag > 9 {
+					lag = 9
+				}
+				nw.Res.count(fmt.Sprintf("commit_lag_rounds_%d", lag), 1)
+				if lag >= 6 {
+					nw.Res.count(fmt.Sprintf("commit_lag_6plus_at_node_%d", n.Idx), 1)
+				}
+			}
+			changed := false
+			for _, rc := range d.Resp.InternalTransactionReceipts {
+				if rc.Accepted {
+					changed = true
+				}
+			}
+			if !changed {
+				continue
+			}
+			nw.Res.count("membership_changes_committed", 1)
+			if d.LastRoundAtCommit >= d.Body.RoundReceived+6 {
+				nw.Res.count("membership_changes_known_only_after_events_of_the_effective_round_existed", 1)
+				nw.Res.max("membership_change_max_rounds_late", int64(d.LastRoundAtCommit-(d.Body.RoundReceived+6)+1))
+			}
+		}
+		m.processed[app] = len(app.Delivered)
+	}
+}
+func (m *MonLateSets) Finish(nw *Network) {}
